@@ -2,7 +2,7 @@
    and the in-Coq cross-check (cases.v, vm_compute) both call. *)
 From Coq Require Import List NArith Bool.
 Import ListNotations.
-From RV Require Import Base.Str Base.PathLex Path.Clean Path.CleanSpec Path.Relative.
+From RV Require Import Base.Str Base.PathLex Path.Clean Path.CleanSpec Path.Relative Path.Helpers Path.HelpersFacts.
 
 Definition api_components := components.
 Definition api_push := push.
@@ -34,3 +34,24 @@ Definition api_relative_check (p b r : list N) : bool :=
     negb (is_absolute r)
     && comps_eqb cs (repeat CParent k ++ filter (fun c => match c with CNormal _ => true | _ => false end) cs)
     && str_eqb (clean_spec (push b r)) p.
+
+(* ---- C15 ---- *)
+Definition api_base := base.
+Definition api_first := first.
+Definition api_dir := dir.
+Definition api_ext := ext.
+Definition api_trim_prefix := trim_prefix.
+Definition api_trim_suffix := trim_suffix.
+Definition api_trim_ext := trim_ext.
+Definition api_name := name.
+Definition api_has := has.
+Definition api_has_prefix := has_prefix.
+Definition api_has_suffix := has_suffix.
+Definition api_mash := mash.
+Definition api_trim_first := trim_first.
+Definition api_trim_last := trim_last.
+Definition api_concat := concat.
+Definition api_parse_paths := parse_paths.
+Definition api_is_empty := is_empty.
+Definition api_trim_protocol := trim_protocol.
+Definition api_kf_ext_class := kf_ext_class.
